@@ -1,4 +1,5 @@
-(* C15 -- TRANSLITERATION of /repo/std/strings.tsh into Gallina.
+(* C15 -- TRANSLITERATION of /repo/std/strings.tsh (as of /repo commit 4ed72b6)
+   into Gallina.
 
    Every library function [F] becomes [lib_f] with the same parameters and an
    [option] result.  The text of each definition follows the source line by
@@ -29,8 +30,10 @@
      updates the parameter [s]; in Go it would declare a fresh one).  Checked on
      the emitted script: the assignment goes to [f6_s], the parameter.
    * [elems[i] = x] on a slice = [slice_set]; [elems[i]] = [slice_get].
-     NOT modelled: the emitted Bash reads a slice element through an unquoted
-     [echo], which squeezes blanks (see NOTES.md).
+     NOT modelled: the emitted Bash reads a slice element through a command
+     substitution  $(eval "printf '%s' \"\${name[i]}\"") , which drops the
+     trailing newlines of the element (see NOTES.md); element reads are exact
+     here.  Only Join reads slice elements.
 
    See NOTES.md for what was observed on the real scripts. *)
 From Verif Require Import Base.Bytestr Lib.GoStrings.
@@ -574,6 +577,26 @@ Section TrimLoops.
 End TrimLoops.
 
 Definition lib_trim_left (s cutset : bytes) : option bytes := trim_with lib_cut_prefix s cutset.
+
+(* func TrimRight(s string, cutset string) string {
+       lenCS := len(cutset)
+       if len(s) > 0 && lenCS > 0 {
+           for {
+               trimmed := false
+               for i := 0; i < lenCS; i++ {
+                   lenS := len(s)
+                   s, cut := CutSuffix(s, cutset[i])
+                   if cut {
+                       trimmed = true
+                   }
+               }
+               if !trimmed {
+                   break
+               }
+           }
+       }
+       return s
+   } *)
 Definition lib_trim_right (s cutset : bytes) : option bytes := trim_with lib_cut_suffix s cutset.
 
 (* ------------------------------------------------------------------ *)
